@@ -29,60 +29,54 @@ theorem refOK_user (q0 : QName) (r : TRef) (h : r.typeQ? = some q0) : RefOK (.us
 
 /-! ### `swift_helpers.fmt_type` -/
 
-theorem swType_both (t : Ty) :
-    (∀ r ∈ (swType t).refs, RefOK t r) ∧ (∀ r ∈ (swType.swTypeU t).refs, RefOK t r) := by
+theorem swType_refs (t : Ty) : ∀ r ∈ (swType t).refs, RefOK t r := by
   induction t with
-  | prim c => exact ⟨by simpa [swType, swType.swTypeU] using tableOr_ok _ _ _ _, by simpa [swType.swTypeU] using tableOr_ok _ _ _ _⟩
-  | ts f => exact ⟨by simpa [swType, swType.swTypeU] using tableOr_ok _ _ _ _, by simpa [swType.swTypeU] using tableOr_ok _ _ _ _⟩
-  | alias q0 => exact ⟨by simpa [swType, swType.swTypeU] using tableOr_ok _ _ _ _, by simpa [swType.swTypeU] using tableOr_ok _ _ _ _⟩
-  | user q0 =>
-    constructor <;> (intro r hr; simp [swType, swType.swTypeU, TExpr.refs] at hr; subst hr; exact refOK_user _ _ rfl)
-  | list e ih =>
-    constructor <;> (intro r hr q hq; simp [swType, swType.swTypeU, refs_cat, TExpr.refs] at hr; exact ih.1 r hr q hq)
+  | prim c => simpa [swType] using tableOr_ok _ _ _ _
+  | ts f => simpa [swType] using tableOr_ok _ _ _ _
+  | alias q0 => simpa [swType] using tableOr_ok _ _ _ _
+  | user q0 => intro r hr; simp [swType, TExpr.refs] at hr; subst hr; exact refOK_user _ _ rfl
+  | list e ih => intro r hr q hq; simp [swType, refs_cat, TExpr.refs] at hr; exact ih r hr q hq
   | map k v ihk ihv =>
-    constructor <;>
-    · intro r hr q hq
-      simp [swType, swType.swTypeU, refs_cat, TExpr.refs] at hr
-      simp [Ty.userTypes]
-      rcases hr with hr | hr
-      · exact Or.inl (ihk.1 r hr q hq)
-      · exact Or.inr (ihv.1 r hr q hq)
+    intro r hr q hq
+    simp [swType, refs_cat, TExpr.refs] at hr
+    simp [Ty.userTypes]
+    rcases hr with hr | hr
+    · exact Or.inl (ihk r hr q hq)
+    · exact Or.inr (ihv r hr q hq)
   | nullable t ih =>
-    constructor
-    · intro r hr q hq
-      simp [swType, refs_cat, TExpr.refs] at hr
-      exact ih.2 r hr q hq
-    · simpa [swType.swTypeU] using tableOr_ok _ _ _ _
-
-theorem swType_refs (t : Ty) : ∀ r ∈ (swType t).refs, RefOK t r := (swType_both t).1
+    intro r hr q hq
+    by_cases hn : ∃ t1, t = .nullable t1
+    · obtain ⟨t1, rfl⟩ := hn
+      rw [swType.eq_1, refs_cat] at hr
+      simp only [TExpr.refs, List.append_nil] at hr
+      exact tableOr_ok _ _ _ _ r hr q hq
+    · rw [swType.eq_2 _ (fun t1 h => hn ⟨t1, h⟩), refs_cat] at hr
+      simp only [TExpr.refs, List.append_nil] at hr
+      exact ih r hr q hq
 
 /-! ### `swift_helpers.fmt_objc_type` -/
 
-theorem swObjcType_both (t : Ty) :
-    (∀ b, ∀ r ∈ (swObjcType t b).refs, RefOK t r) ∧ (∀ r ∈ (swObjcType.go t).refs, RefOK t r) := by
-  induction t with
-  | prim c => exact ⟨fun b => by simpa [swObjcType, swObjcType.go] using tableOr_ok _ _ _ _, by simpa [swObjcType.go] using tableOr_ok _ _ _ _⟩
-  | ts f => exact ⟨fun b => by simpa [swObjcType, swObjcType.go] using tableOr_ok _ _ _ _, by simpa [swObjcType.go] using tableOr_ok _ _ _ _⟩
-  | alias q0 => exact ⟨fun b => by simpa [swObjcType, swObjcType.go] using tableOr_ok _ _ _ _, by simpa [swObjcType.go] using tableOr_ok _ _ _ _⟩
-  | user q0 =>
-    refine ⟨fun b => ?_, ?_⟩ <;>
-      (intro r hr; simp [swObjcType, swObjcType.go, TExpr.refs] at hr; subst hr; exact refOK_user _ _ rfl)
-  | list e ih =>
-    refine ⟨fun b => ?_, ?_⟩ <;>
-      (intro r hr q hq; simp [swObjcType, swObjcType.go, refs_cat, TExpr.refs] at hr; exact ih.1 _ r hr q hq)
-  | map k v _ ihv =>
-    refine ⟨fun b => ?_, ?_⟩ <;>
-    · intro r hr q hq
-      simp [swObjcType, swObjcType.go, refs_cat, TExpr.refs] at hr
-      simp [Ty.userTypes]
-      exact Or.inr (ihv.1 _ r hr q hq)
-  | nullable t ih =>
-    constructor
-    · intro b r hr q hq
-      cases b <;> simp [swObjcType, refs_cat, TExpr.refs] at hr <;> exact ih.2 r hr q hq
-    · simpa [swObjcType.go] using tableOr_ok _ _ _ _
+theorem swObjcTypeU_refs (t : Ty) : ∀ r ∈ (swObjcTypeU t).refs, RefOK t r := by
+  fun_induction swObjcTypeU t with
+  | case1 q0 => intro r hr; simp [TExpr.refs] at hr; subst hr; exact refOK_user _ _ rfl
+  | case2 e ih => intro r hr q hq; simp [refs_cat, TExpr.refs] at hr; simpa [Ty.userTypes] using ih r hr q hq
+  | case3 e _ ih => intro r hr q hq; simp [refs_cat, TExpr.refs] at hr; simpa [Ty.userTypes] using ih r hr q hq
+  | case4 k v ih =>
+    intro r hr q hq; simp [refs_cat, TExpr.refs] at hr; simp [Ty.userTypes]; exact Or.inr (ih r hr q hq)
+  | case5 k v _ ih =>
+    intro r hr q hq; simp [refs_cat, TExpr.refs] at hr; simp [Ty.userTypes]; exact Or.inr (ih r hr q hq)
+  | case6 t _ _ _ _ _ => exact tableOr_ok _ _ _ _
 
-theorem swObjcType_refs (t : Ty) (b : Bool) : ∀ r ∈ (swObjcType t b).refs, RefOK t r := (swObjcType_both t).1 b
+theorem swObjcType_refs (t : Ty) (b : Bool) : ∀ r ∈ (swObjcType t b).refs, RefOK t r := by
+  intro r hr q hq
+  unfold swObjcType at hr
+  split at hr
+  · next t' =>
+    simp only [Ty.userTypes]
+    split at hr
+    · simp [refs_cat, TExpr.refs] at hr; exact swObjcTypeU_refs _ r hr q hq
+    · exact swObjcTypeU_refs _ r hr q hq
+  · exact swObjcTypeU_refs _ r hr q hq
 
 /-! ### `swift.fmt_serial_type`, `swift.fmt_serial_obj` -/
 
@@ -102,32 +96,28 @@ theorem swSerialType_refs (t : Ty) : ∀ r ∈ (swSerialType t).refs, RefOK t r 
     · exact Or.inr (ihv r hr q hq)
   | nullable t _ => intro r hr; simp [swSerialType, TExpr.refs] at hr
 
-theorem swSerialObj_both (t : Ty) :
-    (∀ r ∈ (swSerialObj t).refs, RefOK t r) ∧ (∀ r ∈ (swSerialObj.go t).refs, RefOK t r) := by
+theorem swSerialObj_refs (t : Ty) : ∀ r ∈ (swSerialObj t).refs, RefOK t r := by
   induction t with
-  | prim c =>
-    constructor <;> (intro r hr; simp [swSerialObj, swSerialObj.go, refs_cat, TExpr.refs] at hr; exact tableOr_ok _ _ _ _ r hr)
-  | ts f => constructor <;> (intro r hr; simp [swSerialObj, swSerialObj.go, refs_cat, TExpr.refs] at hr)
-  | alias q0 =>
-    constructor <;> (intro r hr; simp [swSerialObj, swSerialObj.go, refs_cat, TExpr.refs] at hr; exact tableOr_ok _ _ _ _ r hr)
-  | user q0 =>
-    constructor <;> (intro r hr; simp [swSerialObj, swSerialObj.go, TExpr.refs] at hr; subst hr; exact refOK_user _ _ rfl)
-  | list e ih =>
-    constructor <;> (intro r hr q hq; simp [swSerialObj, swSerialObj.go, refs_cat, TExpr.refs] at hr; exact ih.1 r hr q hq)
+  | prim c => intro r hr; simp [swSerialObj, refs_cat, TExpr.refs] at hr; exact tableOr_ok _ _ _ _ r hr
+  | ts f => intro r hr; simp [swSerialObj, refs_cat, TExpr.refs] at hr
+  | alias q0 => intro r hr; simp [swSerialObj, refs_cat, TExpr.refs] at hr; exact tableOr_ok _ _ _ _ r hr
+  | user q0 => intro r hr; simp [swSerialObj, TExpr.refs] at hr; subst hr; exact refOK_user _ _ rfl
+  | list e ih => intro r hr q hq; simp [swSerialObj, refs_cat, TExpr.refs] at hr; exact ih r hr q hq
   | map k v _ ihv =>
-    constructor <;>
-    · intro r hr q hq
-      simp [swSerialObj, swSerialObj.go, refs_cat, TExpr.refs] at hr
-      simp [Ty.userTypes]
-      exact Or.inr (ihv.1 r hr q hq)
+    intro r hr q hq
+    simp [swSerialObj, refs_cat, TExpr.refs] at hr
+    simp [Ty.userTypes]
+    exact Or.inr (ihv r hr q hq)
   | nullable t ih =>
-    constructor
-    · intro r hr q hq
-      simp [swSerialObj, refs_cat, TExpr.refs] at hr
-      exact ih.2 r hr q hq
-    · intro r hr; simp [swSerialObj.go, refs_cat, TExpr.refs] at hr; exact tableOr_ok _ _ _ _ r hr
-
-theorem swSerialObj_refs (t : Ty) : ∀ r ∈ (swSerialObj t).refs, RefOK t r := (swSerialObj_both t).1
+    intro r hr q hq
+    by_cases hn : ∃ t1, t = .nullable t1
+    · obtain ⟨t1, rfl⟩ := hn
+      rw [swSerialObj.eq_1] at hr
+      simp only [refs_cat, TExpr.refs, List.append_nil, List.nil_append] at hr
+      exact tableOr_ok _ _ _ _ r hr q hq
+    · rw [swSerialObj.eq_2 _ (fun t1 h => hn ⟨t1, h⟩)] at hr
+      simp only [refs_cat, TExpr.refs, List.append_nil, List.nil_append] at hr
+      exact ih r hr q hq
 
 /-! ### `obj_c_helpers.fmt_type`, `fmt_class_type`, `fmt_serial_obj`, `fmt_validator` -/
 
@@ -491,5 +481,93 @@ theorem swiftTypesDecls_AllM (api : Api) : ∀ d ∈ swiftTypesDecls api, AllM a
   · obtain ⟨ha, hres, he⟩ := route_ty_mentioned hns hr
     exact AllM_append (AllM_append (AllM_of_refOK ha (swSerialObj_refs _)) (AllM_of_refOK hres (swSerialObj_refs _)))
       (AllM_of_refOK he (swSerialObj_refs _))
+
+/-! #### swift_types --objc -/
+
+theorem one_type_mentioned {api : Api} {r : TRef} {q : QName} (hq : q ∈ mentioned api) (hr : r.typeQ? = some q ∨ r.typeQ? = none) :
+    ∀ q', r.typeQ? = some q' → q' ∈ mentioned api := by
+  intro q' h
+  rcases hr with hr | hr
+  · rw [hr] at h; cases h; exact hq
+  · rw [hr] at h; cases h
+
+theorem listCore_user (t : Ty) : ∀ q0, listCore t = .user q0 → q0 ∈ t.userTypes := by
+  fun_induction listCore t with
+  | case1 e ih => intro q0 h; simpa [Ty.userTypes] using ih q0 h
+  | case2 e ih => intro q0 h; simpa [Ty.userTypes] using ih q0 h
+  | case3 t _ => intro q0 h; subst h; simp [Ty.userTypes]
+  | case4 t _ _ => intro q0 h; subst h; simp [Ty.userTypes]
+  | case5 t _ _ _ _ => intro q0 h; subst h; simp [Ty.userTypes]
+
+theorem factoryRefs_ok (t : Ty) : ∀ r ∈ factoryRefs t, RefOK t r := by
+  intro r hr q hq
+  rw [← unwrap_userTypes]
+  unfold factoryRefs at hr
+  split at hr
+  · next l e h =>
+    rw [h]
+    have key := listCore_user
+    split at hr
+    · next q0 hq0 =>
+      simp at hr; subst hr; simp [TRef.typeQ?] at hq; subst hq
+      exact key _ _ hq0
+    · simp at hr
+  · next q0 h => simp at hr; subst hr; simp [TRef.typeQ?] at hq; subst hq; rw [h]; simp [Ty.userTypes]
+  · simp at hr
+
+theorem swObjcStructDecls_AllM {api : Api} {ns : Namespace} {s : StructT} (hns : ns ∈ api.nss)
+    (ht : UserT.struct s ∈ ns.types) : ∀ d ∈ swObjcStructDecls api ns.name s, AllM api d.refs := by
+  have haf : ∀ f ∈ structAllFields api ns.name s, ∀ q ∈ f.ty.userTypes, q ∈ mentioned api :=
+    fun f hf q hq => structAllFields_mentioned hns ht hf hq
+  have hown : ∀ f ∈ s.fields, ∀ q ∈ f.ty.userTypes, q ∈ mentioned api :=
+    fun f hf q hq => field_mentioned hns ht (by simpa [UserT.fields] using hf) hq
+  have hself : (⟨ns.name, s.name⟩ : QName) ∈ mentioned api := self_mentioned hns ht
+  intro d hd
+  simp only [swObjcStructDecls, List.mem_cons, List.mem_map] at hd
+  rcases hd with rfl | ⟨f, hf, rfl⟩
+  · refine AllM_append (AllM_append (AllM_append (AllM_append ?_ ?_) (AllM_fieldRefs (fun t => swObjcType_refs t true) hown)) ?_) ?_
+    · exact AllM_cons (one_type_mentioned hself (Or.inl rfl)) (AllM_nil _)
+    · split
+      · exact AllM_nil _
+      · next p hp =>
+        exact AllM_of_refOK (userQ_mentioned_of (parent_mentioned hns ht (by simpa [UserT.parent] using hp))) (swObjcType_refs _ _)
+    · split
+      · exact AllM_nil _
+      · exact AllM_fieldRefs (fun t => swObjcType_refs t true) haf
+    · split
+      · apply AllM_flatMap
+        intro q hq
+        have hm := allSubtypes_mentioned hns ht hq
+        exact AllM_cons (one_type_mentioned hm (Or.inl rfl)) (AllM_cons (one_type_mentioned hm (Or.inl rfl)) (AllM_nil _))
+      · exact AllM_nil _
+  · exact AllM_of_refOK (hown f hf) (swObjcType_refs _ _)
+
+theorem swObjcUnionDecls_AllM {api : Api} {ns : Namespace} {u : UnionT} (hns : ns ∈ api.nss)
+    (ht : UserT.union u ∈ ns.types) : ∀ d ∈ swObjcUnionDecls api ns.name u, AllM api d.refs := by
+  have haf : ∀ f ∈ unionAllFields api ns.name u, ∀ q ∈ f.ty.userTypes, q ∈ mentioned api :=
+    fun f hf q hq => unionAllFields_mentioned hns ht hf hq
+  have hself : (⟨ns.name, u.name⟩ : QName) ∈ mentioned api := self_mentioned hns ht
+  intro d hd
+  simp only [swObjcUnionDecls, List.mem_cons, List.mem_append, List.mem_map, List.mem_flatMap] at hd
+  rcases hd with (rfl | ⟨f, hf, rfl⟩) | ⟨f, hf, hd⟩
+  · refine AllM_append (AllM_cons (one_type_mentioned hself (Or.inl rfl)) (AllM_nil _)) (AllM_flatMap fun f hf => ?_)
+    exact AllM_cons (one_type_mentioned hself (Or.inr rfl)) (AllM_of_refOK (haf f hf) (factoryRefs_ok _))
+  · exact AllM_cons (one_type_mentioned hself (Or.inr rfl)) (AllM_nil _)
+  · rcases hd with rfl | hd
+    · exact AllM_append (AllM_cons (one_type_mentioned hself (Or.inl rfl))
+        (AllM_cons (one_type_mentioned hself (Or.inl rfl)) (AllM_nil _))) (AllM_of_refOK (haf f hf) (swObjcType_refs _ _))
+    · split at hd
+      · simp at hd
+      · simp only [List.mem_cons, List.not_mem_nil, or_false] at hd
+        subst hd
+        exact AllM_of_refOK (haf f hf) (swObjcType_refs _ _)
+
+theorem swiftTypesObjcDecls_AllM (api : Api) : ∀ d ∈ swiftTypesObjcDecls api, AllM api d.refs := by
+  intro d hd
+  simp only [swiftTypesObjcDecls, List.mem_flatMap] at hd
+  obtain ⟨ns, hns, t, ht, hd⟩ := hd
+  cases t with
+  | struct s => exact swObjcStructDecls_AllM hns ht d hd
+  | union u => exact swObjcUnionDecls_AllM hns ht d hd
 
 end StoneVerif.DeclSwift
